@@ -7,9 +7,11 @@ package main
 
 import (
 	"fmt"
+	"go/constant"
 	"go/token"
 	"go/types"
 	"sort"
+	"strconv"
 	"strings"
 
 	"golang.org/x/tools/go/ssa"
@@ -144,6 +146,7 @@ func (w *World) facts(fn *ssa.Function) *funcFacts {
 			}
 			var acc factSet
 			first := true
+			var bounds []map[ssa.Value]ival // per live predecessor: constant bounds of integer values
 			for _, p := range b.Preds {
 				pin, ok := ff.in[p]
 				if !ok {
@@ -159,6 +162,9 @@ func (w *World) facts(fn *ssa.Function) *funcFacts {
 				for _, f := range edgeFacts(p, b) {
 					out[f] = struct{}{}
 				}
+				if len(b.Preds) > 1 {
+					bounds = append(bounds, constBounds(out))
+				}
 				if first {
 					acc = out
 					first = false
@@ -173,14 +179,112 @@ func (w *World) facts(fn *ssa.Function) *funcFacts {
 			if first {
 				continue
 			}
+			// what the predecessors agree on as a RANGE although they disagree on the atom:
+			// class == 1 on one edge, class == 0 on the other leave class < 2 at the merge
+			if len(bounds) > 1 {
+				for x, r := range bounds[0] {
+					all := true
+					for _, bm := range bounds[1:] {
+						r2, ok := bm[x]
+						if !ok {
+							all = false
+							break
+						}
+						r = r.join(r2)
+					}
+					if !all {
+						continue
+					}
+					tr := typeRange(x.Type())
+					if r.hi < tr.hi && r.hi < inf-1 {
+						acc[Fact{Atom{"<", x, w.intConst(x.Type(), r.hi+1)}, true}] = struct{}{}
+					}
+					if r.lo > tr.lo && r.lo > -inf {
+						acc[Fact{Atom{"<", x, w.intConst(x.Type(), r.lo)}, false}] = struct{}{}
+					}
+				}
+			}
 			old, had := ff.in[b]
-			if !had || len(old) != len(acc) {
+			same := had && len(old) == len(acc)
+			if same {
+				for f := range acc {
+					if _, ok := old[f]; !ok {
+						same = false
+						break
+					}
+				}
+			}
+			if !same {
 				ff.in[b] = acc
 				changed = true
 			}
 		}
 	}
 	return ff
+}
+
+// constBounds: for every integer value compared with constants in the fact set, the interval
+// those facts confine it to.
+func constBounds(fs factSet) map[ssa.Value]ival {
+	out := map[ssa.Value]ival{}
+	upd := func(x ssa.Value, lo, hi int64) {
+		if _, isC := x.(*ssa.Const); isC || !isIntType(x.Type()) {
+			return
+		}
+		r, ok := out[x]
+		if !ok {
+			r = ival{-inf, inf}
+		}
+		if lo > r.lo {
+			r.lo = lo
+		}
+		if hi < r.hi {
+			r.hi = hi
+		}
+		out[x] = r
+	}
+	for f := range fs {
+		if f.X == nil || f.Y == nil {
+			continue
+		}
+		cx, xIsC := constInt(f.X)
+		cy, yIsC := constInt(f.Y)
+		switch {
+		case f.Op == "==" && f.Truth && yIsC:
+			upd(f.X, cy, cy)
+		case f.Op == "==" && f.Truth && xIsC:
+			upd(f.Y, cx, cx)
+		case f.Op == "<" && yIsC && f.Truth: // X < c
+			upd(f.X, -inf, cy-1)
+		case f.Op == "<" && yIsC && !f.Truth: // X >= c
+			upd(f.X, cy, inf)
+		case f.Op == "<" && xIsC && f.Truth: // c < Y
+			upd(f.Y, cx+1, inf)
+		case f.Op == "<" && xIsC && !f.Truth: // c >= Y
+			upd(f.Y, -inf, cx)
+		}
+	}
+	for x, r := range out {
+		if r.lo == -inf && r.hi == inf {
+			delete(out, x)
+		}
+	}
+	return out
+}
+
+// intConst: the canonical constant k of type t (one object per (type, value), so that facts
+// built from it compare equal).
+func (w *World) intConst(t types.Type, k int64) *ssa.Const {
+	if w.intConsts == nil {
+		w.intConsts = map[string]*ssa.Const{}
+	}
+	key := t.String() + "|" + strconv.FormatInt(k, 10)
+	if c, ok := w.intConsts[key]; ok {
+		return c
+	}
+	c := ssa.NewConst(constant.MakeInt64(k), t)
+	w.intConsts[key] = c
+	return c
 }
 
 func edgeFacts(p, s *ssa.BasicBlock) []Fact {
